@@ -649,7 +649,7 @@ def _negated_weights(call, wname):
 
 
 
-@rule("C11.defuse", "anchored files: every parameter is read, no value is computed and dropped (generic def-use detectors, triaged hit list)", floor=2)
+@rule("C11.defuse", "anchored files: no parameter is accepted and ignored (generic def-use detector, triaged exemptions)", floor=2)
 def defuse(rc):
     from . import shared as _sh
     _sh.defuse_rule(rc, _sh.anchor_files("C11"))
